@@ -95,10 +95,8 @@ def matchZaid (s : List K) : Option Nat :=
     match skipD s with
     | .dot :: .dig _ :: .dig _ :: c :: r3 =>
       if c.isLetter && expGuard (c :: r3) then some (n + 4)
-      else
-        match c, r3 with
-        | .dig _, d :: e' :: _ => if d.isLetter && e'.isLetter then some (n + 6) else none
-        | _, _ => none
+      else if c.isDig && headIsLetter r3 && headIsLetter r3.tail then some (n + 6)
+      else none
     | _ => none
   else none
 
